@@ -1,5 +1,6 @@
 import HvsrVerif.Proto
 import HvsrVerif.Model.Process
+import HvsrVerif.Model.PsdPre
 /-! driver commands for the processing chains (C01 C03 C04 C09 C17) -/
 namespace HV.Drv
 open HV.Proto
@@ -112,6 +113,17 @@ def orientCmd : P String := do
   let out := (List.zip ns ew).map (orientSample cur new)
   pure s!"ok {fVec (out.map (·.1))} {fVec (out.map (·.2))} {fF (degNorm new)}"
 
+/-- `diffx n dt x*` / `flatresp n S x*` / `flatclosed n S x*` -/
+def diffCmd : P String := do
+  let n ← nat; let dt ← flt; let x ← vec
+  pure ("ok " ++ fVec (differentiate x n dt))
+def flatCmd : P String := do
+  let n ← nat; let s ← flt; let x ← vec
+  pure ("ok " ++ fVec (removeFlatResponse x n s))
+def flatClosedCmd : P String := do
+  let n ← nat; let s ← flt; let x ← vec
+  pure ("ok " ++ fVec (flatResponseClosed x n s))
+
 def opsProc (op : String) : Option (P String) :=
   match op with
   | "proc.trad" => some procTrad
@@ -127,6 +139,9 @@ def opsProc (op : String) : Option (P String) :=
   | "pct" => some pctCmd
   | "rows" => some rowsCmd
   | "orient" => some orientCmd
+  | "diffx" => some diffCmd
+  | "flatresp" => some flatCmd
+  | "flatclosed" => some flatClosedCmd
   | _ => none
 
 end HV.Drv
